@@ -166,13 +166,22 @@ func genIniLines(t *rapid.T, d *Decl, max int, forms bool) []IniLine {
 	return out
 }
 
-var noiseKinds = []string{"indent of >= 4095 blanks", "blank", "semicolon comment", "hash comment", "long comment", "indent", "trailing blanks", "spaces around =", "no spaces around =", "crlf", "header padding", "tab indent"}
+var noiseKinds = []string{"indent of >= 4095 blanks", "blank", "semicolon comment", "hash comment", "long comment", "indent", "trailing blanks", "spaces around =", "no spaces around =", "crlf", "header padding", "tab indent", "comment of 5 MiB"}
 
 // addNoise rewrites physical lines without changing their meaning.
 func addNoise(t *rapid.T, phys []string) ([]string, []string) {
 	var out []string
 	kinds := map[string]bool{}
-	for _, l := range phys {
+	hugeAt := -1
+	if len(phys) > 0 && rapid.IntRange(0, 149).Draw(t, "hugeComment") == 0 {
+		hugeAt = rapid.IntRange(0, len(phys)-1).Draw(t, "hugeAt")
+	}
+	for li, l := range phys {
+		if li == hugeAt {
+			// "arbitrarily long lines": far beyond any buffer size one might pick
+			out = append(out, "# "+strings.Repeat("long line ", (5<<20)/10))
+			kinds["comment of 5 MiB"] = true
+		}
 		for rapid.IntRange(0, 9).Draw(t, "insertNoise") < 3 {
 			switch rapid.IntRange(0, 3).Draw(t, "noiseLine") {
 			case 0:
